@@ -408,6 +408,7 @@ func runC12(w *W) {
 	}
 	rec(nil)
 	w.Case("empty list", func() CaseOut { return checkFwList(nil, pkts) })
+	runC12MeshAll(w)
 }
 
 func init() {
@@ -416,9 +417,10 @@ func init() {
 		Level:     "exploration",
 		Technique: "bounded-exhaustive enumeration of rule lists x packets against a reference interpreter (real ParseFirewallRules + rule functions; real nodes in a synctest bubble for origin/transit/destination)",
 		Rule: "every single rule over the product of 10 pattern kinds per field x 7 actions (quick: at most 2 exotic kinds per rule), a menu of odd keys/values, and every ordered list of length <=2 (quick) / <=3 (thorough) over a 12-rule core; each evaluated on all 16 packets (2 values per field). " +
-			"A case is one rule list; it is non-trivial when it has at least one rule (single rules) or more than one rule (lists); cases are distinct by construction (each list enumerated once).",
+			"A case is one rule list; it is non-trivial when it has at least one rule (single rules) or more than one rule (lists); cases are distinct by construction (each list enumerated once). " +
+			"Level 2: every ordered list of <=2 rules (thorough: a third of the triples) over a 10-rule menu installed at the origin, the transit node or the destination of a real 3-node chain in a synctest bubble, one packet in each direction: delivery / `blocked by firewall` notice from the deciding node / silence must equal what the first matching rule dictates at every node the packet and the returning notice touch.",
 		Assumptions: []string{
-			"level 1 replicates the three-line rule loop of handleMessageData; level 2 (mesh) exercises the real loop",
+			"level 1 replicates the three-line rule loop of handleMessageData; level 2 exercises the real loop on real nodes",
 			"an empty pattern string means the field is not given; duplicate keys differing only in case are not generated",
 		},
 		Run: runC12,
